@@ -141,7 +141,12 @@ pub fn run(cases_path: &str, out_path: &str, tier: &str, seed: u64) {
                 let mut cj2 = cj.clone();
                 cj2["opener"] = json!([op.0, op.1]);
                 cj2["pattern"] = json!(pat);
-                sink.put(rec("c01.roundtrip", cj2, ok, "roundtrip", json!({"why": if ok { String::new() } else { why }, "expect": expect})));
+                // known root cause shared with C18: a v4 SKESK decrypted with the OTHER password of the message yields a plausible
+                // session key with probability ~1/256 and the ring then reports a conflict
+                let v4_skesk_plausible = !ok && op.0 == "password" && cfg["enc"]["kind"] == "v1" && cfg["passwords"].as_array().map(|a| a.len()).unwrap_or(0) >= 2
+                    && (why.contains("inconsistent session keys detected") || why.contains("nconsistent key length") || why.contains("nsupported symmetric"));
+                let fkey = if v4_skesk_plausible { "skesk_v4_foreign_password_plausible" } else { "roundtrip" };
+                sink.put(rec("c01.roundtrip", cj2, ok, fkey, json!({"why": if ok { String::new() } else { why }, "expect": expect})));
             }
         }
     });
